@@ -64,6 +64,10 @@ type StopCase struct {
 	HoldMs int `json:",omitempty"`
 	// Chop != 0: the master's bytes arrive in pieces (see fakemaster.ConnPlan.Chop)
 	Chop uint32 `json:",omitempty"`
+	// ErrLater: the caller does not ask Error() when Stream has returned (one who cancelled has no reason to):
+	// the connection must be closed and the library's goroutines gone all the same; Error() is called, three
+	// times, only after that has been judged
+	ErrLater bool `json:",omitempty"`
 }
 
 // ownCtx is a context type of the caller's own: it has its own Done channel (closed when the wrapped
@@ -528,7 +532,9 @@ func runStop(c *StopCase) *StopObs {
 			}
 		}
 		// the first Error() call comes IMMEDIATELY after Stream returned, as a caller would do it
-		callError(st)
+		if !c.ErrLater {
+			callError(st)
+		}
 		// the connection must be closed by the library within the bound (when the master did not close it first)
 		// (a session that never sent a command ended inside the driver's connect phase - e.g. a deadline that
 		// expired there; what is left behind then is judged by the goroutine check with its connect-phase signature)
@@ -595,6 +601,10 @@ func runStop(c *StopCase) *StopObs {
 		} else if obs.Inconclusive == "" {
 			obs.Inconclusive = "library goroutines remained but are not provably blocked: " + strings.Join(desc, "; ")
 		}
+	}
+
+	if c.ErrLater {
+		callError(st)
 	}
 
 	obs.AfterReturn = atomic.LoadInt32(&st.afterRet)
